@@ -196,11 +196,9 @@ func toPropertyDescriptor(rt *runtime, value Value) property {
 
 func (rt *runtime) fromPropertyDescriptor(descriptor property) *object {
 	obj := rt.newObject()
-	if descriptor.isDataDescriptor() {
-		obj.defineProperty("value", descriptor.value.(Value), 0o111, false)
-		obj.defineProperty("writable", boolValue(descriptor.writable()), 0o111, false)
-	} else if descriptor.isAccessorDescriptor() {
-		getSet := descriptor.value.(propertyGetSet)
+	// The payload decides the kind of a stored property: an accessor whose get
+	// and set are both undefined is still an accessor property (8.10.4).
+	if getSet, isAccessor := descriptor.value.(propertyGetSet); isAccessor {
 		get := Value{}
 		if getSet[0] != nil {
 			get = objectValue(getSet[0])
@@ -211,6 +209,10 @@ func (rt *runtime) fromPropertyDescriptor(descriptor property) *object {
 		}
 		obj.defineProperty("get", get, 0o111, false)
 		obj.defineProperty("set", set, 0o111, false)
+	} else {
+		value, _ := descriptor.value.(Value)
+		obj.defineProperty("value", value, 0o111, false)
+		obj.defineProperty("writable", boolValue(descriptor.writable()), 0o111, false)
 	}
 	obj.defineProperty("enumerable", boolValue(descriptor.enumerable()), 0o111, false)
 	obj.defineProperty("configurable", boolValue(descriptor.configurable()), 0o111, false)
